@@ -209,6 +209,17 @@ def process_world(args):
                     res['fails'].append(f)
         if not qo.lookups_registered():
             res['fails'].append(dict(clause='harness', function='-', root_kind='-', signature='unclassified|lookup-not-restored'))
+        # the hypothesis PolCoh of C13_lookup_hypothesis_for_identifiers, on the implementation: the children of a
+        # parent under the EDIF policy carry .NS = EDIF (after all the edits of this session)
+        for o in w.objs:
+            if w.kind(o) in ('netlist', 'library', 'definition') and '.NS' in o and o['.NS'] == 'EDIF':
+                for attr in ('libraries', 'definitions', 'ports', 'cables', 'children'):
+                    for ch in getattr(o, attr, ()):
+                        stats['polcoh_children_checked'] += 1
+                        if '.NS' not in ch or ch['.NS'] != 'EDIF':
+                            res['fails'].append(dict(clause='lookup', function='-', root_kind=w.kind(o), key='EDIF.identifier', policy=policy,
+                                                     detail='child %s of EDIF parent %s has .NS %r' % (qo.elem_tok(w, ch), qo.elem_tok(w, o), ch.get('.NS')),
+                                                     signature='unclassified|policy-coherence'))
     finally:
         w.close()
     res['stats'] = stats
